@@ -378,6 +378,13 @@ func gen(c *harness.C) []harness.Case {
 		if len(sc.Threads) <= 2 {
 			b = b2
 		}
+		if strings.HasPrefix(sc.Name, "s12-long-lived-topic") {
+			// one thread against the clock goroutine, dozens of steps: one length, one preemption
+			if sc.Name != "s12-long-lived-topic-8-epochs" {
+				continue
+			}
+			b = 1
+		}
 		fams = append(fams, fam{name: "box/" + sc.Name, bound: b,
 			run: func(c *harness.C, r *explore.Recorder) ([]string, bool, []string) {
 				res := boxRun(c, sc, r)
